@@ -1,6 +1,6 @@
 (* C09 -- string literals decode exactly, at every length and alignment. Statements only. *)
 From Coq Require Import List NArith Arith Bool.
-From SonicV Require Import Base.Blocks Spec.Ref Model.SkipStr Model.Inplace Model.TablesDefs Model.TablesOk Gen.Tables.
+From SonicV Require Import Base.Blocks Spec.Ref Model.SkipStr Model.Inplace Model.TablesDefs Model.TablesOk Gen.Tables Model.EscRoundTrip.
 Import ListNotations.
 Local Close Scope N_scope.
 Local Open Scope nat_scope.
@@ -42,3 +42,9 @@ Proof. exact skip_sound_strict. Qed.
 Theorem string_scanner_complete : forall strict body rest fuel, SkipStr.str_body body -> (length body + 1 < fuel) ->
   skip_str strict fuel (body ++ 34%N :: rest) = Some rest.
 Proof. exact skip_complete. Qed.
+
+(* the reference decoder inverts the escaper on every byte string: decoding does not depend on what
+   follows the literal, and has_escape is reported exactly when an escape is present *)
+Theorem decode_inverts_escape : forall s fuel rest, length s < fuel ->
+  Ref.str_body true fuel (EscRoundTrip.escape s ++ 34%N :: rest) = Some (s, existsb need_spec s, rest).
+Proof. exact decode_escape. Qed.
